@@ -153,6 +153,12 @@ fn tail_rec_param_name(name: &str) -> String {
   format!("_tailrec_param_{name}")
 }
 
+/// Whether `name` is the receiver (closure context) parameter of a method, possibly after the rewrite
+/// above renamed it. Later stages give functions with such a first parameter the closure calling convention.
+pub(super) fn is_receiver_parameter(heap: &Heap, name: PStr) -> bool {
+  name == PStr::UNDERSCORE_THIS || name.as_str(heap) == tail_rec_param_name("_this")
+}
+
 fn optimize_function_by_tailrec_rewrite_aux(
   heap: &mut Heap,
   function: Function,
